@@ -399,7 +399,7 @@ def register(E):
                     raise Inconclusive('adaptor op ' + op)
         return res
 
-    @model(r'^core::slice::<impl \[T\]>::(first|last|get|contains|concat|join)$')
+    @model(r'^(?:core|std)::slice::<impl \[T\]>::(first|last|get|contains|concat|join)$')
     def _(E, st, callee, a, m):
         op = m.group(1)
         v = d(st, a[0])
@@ -415,6 +415,10 @@ def register(E):
         if op == 'contains':
             from .core_models import deep_eq
             return [(T, z3.Or(*[deep_eq(E, st, x, a[1]) for x in its]) if its else FALSE)]
+        if op == 'concat':
+            from .str_models import concat
+            parts = [E.as_str(st, x) for x in its]
+            return [(T, Obj('String', concat(E, parts) if parts else E.const_str(b'')))]
         raise Inconclusive('slice::' + op)
 
     @model(r'^<\[T\] as std::ops::Index>::index$|^<std::vec::Vec as std::ops::Index>::index$')
